@@ -41,6 +41,8 @@ var c19Pool = []string{
 	"set f to transform set a to 1 set b to a + 1 set c to b + a set d to c + 2 set e to d * 2 set g to e - 1 end\nreplace all 'a' with f '.'",
 	"set f to transform set a to 1 set b to a + 1 set c to b + a set d to c + 2 set e to d * 2 set g to e - 1 set h to g + matchLength end\nreplace all 'b' with f f",
 	"set p to pattern at least 1 digit begin set a to match set b to a + 1 set c to b end\nfind all p",
+	// a linear replace command (for texts beyond a mebibyte: what a replace command builds for NOTHING mode is its own)
+	"replace all 'a' with 'bb'",
 	// compilations that FAIL (in the lexer, the parser, the regex sub-parser, the generator, the type checker) run
 	// concurrently with the others: an error path must leave nothing shared behind either
 	"find all 'unterminated",
@@ -150,7 +152,7 @@ func C19(r *drv.Run) {
 	if !quick(r) {
 		rounds = 3000
 	}
-	r.Rule = "rounds of 8..32 goroutines issuing Compile (sources with and without regex groups, with loops, with relocated global patterns, sources that fail in the lexer / parser / regex sub-parser / generator / type checker, sources of about a kilobyte), Compile+Run, Run on shared pre-compiled programs and Run followed by Json()/FormattedJson() of the result list, on short texts and on texts long enough for loops to pass 64, 128 and 256 iterations in one attempt, all released from one barrier, in a -race build of the worker; yield hooks (H2 every lexer read, H3 parser/generator sites, H1 every VM step) armed in half of the rounds. Plus compile storms: 16 goroutines each compiling a few tiny sources two hundred times over without yields (9 600 compilations per storm), every repetition compared. In every third round a third of the calls are RunFiles calls of two linear programs over ONE file of 13 KB (three reader windows) and one small file, so that several goroutines search the same file at the same time. One round in ten runs next to one more compilation that waits for its source on a named pipe; the source is delivered when every other call has returned - a call that alone returns at once must not wait for it (the writer gives up after 20 s, which is the violation). Oracle 1: the Go race detector (GORACE halt_on_error=0, log files parsed, reports de-duplicated by the pair of outermost repository frames): any report is a violation. Oracle 2: every concurrent call's result digest (canonical bytecode with loop ids normalised; all match fields; the rendered JSON texts) equals the digest of the same call executed alone in a fresh sequential worker. Oracle 3: canonical bytecode of the shared programs unchanged by the round. Non-trivial = a call whose [call,return] interval overlapped another call's on the shared monotonic clock; distinct by (round, call index)."
+	r.Rule = "rounds of 8..32 goroutines issuing Compile (sources with and without regex groups, with loops, with relocated global patterns, sources that fail in the lexer / parser / regex sub-parser / generator / type checker, sources of about a kilobyte), Compile+Run, Run on shared pre-compiled programs and Run followed by Json()/FormattedJson() of the result list, on short texts and on texts long enough for loops to pass 64, 128 and 256 iterations in one attempt, all released from one barrier, in a -race build of the worker; yield hooks (H2 every lexer read, H3 parser/generator sites, H1 every VM step) armed in half of the rounds. Plus compile storms: 16 goroutines each compiling a few tiny sources two hundred times over without yields (9 600 compilations per storm), every repetition compared. In every third round a third of the calls are RunFiles calls of two linear programs over ONE file of 13 KB (three reader windows) and one small file, so that several goroutines search the same file at the same time. Every thirtieth round adds four goroutines that run a linear replace command (three of them compiling it themselves) on two different texts of more than a mebibyte with thousands of matches. One round in ten runs next to one more compilation that waits for its source on a named pipe; the source is delivered when every other call has returned - a call that alone returns at once must not wait for it (the writer gives up after 20 s, which is the violation). Oracle 1: the Go race detector (GORACE halt_on_error=0, log files parsed, reports de-duplicated by the pair of outermost repository frames): any report is a violation. Oracle 2: every concurrent call's result digest (canonical bytecode with loop ids normalised; all match fields; the rendered JSON texts) equals the digest of the same call executed alone in a fresh sequential worker. Oracle 3: canonical bytecode of the shared programs unchanged by the round. Non-trivial = a call whose [call,return] interval overlapped another call's on the shared monotonic clock; distinct by (round, call index)."
 	r.Assumptions = []string{
 		"the race detector only sees races on schedules that occur; yields and repetition raise the odds, not to certainty",
 		"the harness's own monitor state is atomic in concurrent mode; the step and lexer counters are switched off there",
@@ -165,6 +167,15 @@ func C19(r *drv.Run) {
 	}
 	longIdx := len(texts)
 	texts = append(texts, []byte(c19LongText))
+	// two different texts of a mebibyte and more, searched by a linear replace command from several goroutines at once
+	hugeIdx := len(texts)
+	texts = append(texts, []byte(strings.Repeat("y", 1<<20)+strings.Repeat("xa", 2000)), []byte(strings.Repeat("z", 1<<20+500)+strings.Repeat("a.", 1500)))
+	replIdx := -1
+	for pi, p := range c19Pool {
+		if p == "replace all 'a' with 'bb'" {
+			replIdx = pi
+		}
+	}
 	type key struct {
 		kind string
 		p, t int
@@ -175,7 +186,7 @@ func C19(r *drv.Run) {
 	for p := range c19Pool {
 		keys = append(keys, key{"compile", p, 0})
 		for t := range texts {
-			if t == longIdx {
+			if t >= longIdx {
 				continue
 			}
 			keys = append(keys, key{"compile+run", p, t}, key{"run", p, t}, key{"run+json", p, t})
@@ -184,6 +195,7 @@ func C19(r *drv.Run) {
 	for _, p := range c19LinearProgs {
 		keys = append(keys, key{"runfiles", p, longIdx}, key{"runfiles", p, 3}, key{"run", p, longIdx})
 	}
+	keys = append(keys, key{"compile+run", replIdx, hugeIdx}, key{"compile+run", replIdx, hugeIdx + 1}, key{"run", replIdx, hugeIdx})
 	// sequential reference digests, one fresh (non-race) worker process per call
 	r.Exec(len(keys), drv.ExecOpts{Batch: 8}, func(i int) *drv.Item {
 		k := keys[i]
@@ -221,6 +233,12 @@ func C19(r *drv.Run) {
 			if i%3 == 1 && rng.Chance(1, 3) {
 				// several goroutines search the SAME file (three reader windows long) at the same time, next to the rest
 				calls[j] = wire.Call{Kind: "runfiles", Prog: c19LinearProgs[rng.Intn(len(c19LinearProgs))], Text: []int{longIdx, longIdx, 3}[rng.Intn(3)], G: j % g}
+			}
+		}
+		if i%30 == 4 {
+			// four goroutines run a linear replace command (three of them compile it themselves) on the two mebibyte texts at the same time
+			for q := 0; q < 4; q++ {
+				calls = append(calls, wire.Call{Kind: []string{"compile+run", "compile+run", "compile+run", "run"}[q], Prog: replIdx, Text: hugeIdx + q%2, G: q})
 			}
 		}
 		c := wire.Case{Op: "conc", Srcs: srcs, Texts: texts, Calls: calls, Goroutines: g, Yield: i%2 == 0}
@@ -267,6 +285,9 @@ func C19(r *drv.Run) {
 				}
 				if cl.Kind == "runfiles" {
 					r.Count("concurrent_searches_of_one_file", 1)
+				}
+				if cl.Text >= hugeIdx {
+					r.Count("concurrent_replace_runs_on_mebibyte_texts", 1)
 				}
 				if cl.Panic != "" || cl.Digest != want {
 					r.Violate(&drv.Violation{Sig: "concurrent-call-differs-from-sequential:" + cl.Kind, Src: c19Pool[cl.Prog], Text: oneLineN(string(texts[cl.Text]), 80), Case: &c,
